@@ -64,6 +64,8 @@ def run_main(nc, argv, cwd, env=None):
     old = os.getcwd()
     err = io.StringIO()
     outcome, detail = "ok", None
+    if env:
+        env = dict(env, HOME=load.hostile_home(), XDG_CONFIG_HOME=os.path.join(load.hostile_home(), ".config"))
     saved = {k: os.environ.get(k) for k in (env or {})}
     os.environ.update(env or {})
     root = logging.getLogger()
@@ -235,7 +237,25 @@ def _reject(ctx, case, nc, wd):
     dump = os.path.join(wd, "map.txt")
     base = {"input": src, "output": dst}
     kind = rng.choice(["undo-no-salt", "undo-with-a", "dump-without-a", "hostbits-range", "hostbits-nonint", "missing-input",
-                       "missing-output", "no-feature", "empty-input", "empty-output"])
+                       "missing-output", "no-feature", "empty-input", "empty-output", "empty-argv"])
+    if kind == "empty-argv":
+        # main([]) - no arguments at all - inside a program whose OWN command line would be a valid netconan invocation
+        ctx.count("rejection_vectors")
+        ctx.count("reject_kind_empty-argv")
+        saved_argv = sys.argv
+        sys.argv = ["wrapper.py", "-a", "-p", "-s", "s1", "-i", src, "-o", dst]
+        before = fsmon.snapshot(wd)
+        try:
+            outcome, detail, w = run_main(nc, [], wd)
+        finally:
+            sys.argv = saved_argv
+        after = fsmon.snapshot(wd)
+        ctx.ev()
+        new = sorted(set(after) - set(before))
+        if outcome != "error" or new:
+            ctx.violation(dict(case, argv=[]), "not-rejected:empty-argv", "main([]) (no input, no output) ended %s and created %r while the embedding program's "
+                          "sys.argv was %r" % (outcome, new, ["wrapper.py", "-a", "-p", "-s", "s1", "-i", "<in>", "-o", "<out>"]))
+        return
     o = dict(base)
     extra = {}
     if rng.random() < 0.5:
@@ -333,7 +353,7 @@ def gen_accept(rng, src, dst, dump):
     if rng.random() < 0.5:
         o["anonymize-passwords"] = True
     if rng.random() < 0.5:
-        o["sensitive-words"] = rng.choice(["zurich", "zurich,gotham", "kiwi,GOTHAM,zurich", "sea,seattle"])
+        o["sensitive-words"] = rng.choice(["zurich", "zurich,gotham", "kiwi,GOTHAM,zurich", "sea,seattle", "\"zurich,gotham", "kiwi,\"gotham\"", "'zurich',kiwi"])
     if rng.random() < 0.4:
         o["as-numbers"] = rng.choice(["65000", "65000,64999", "12345,65000,64999"])
     if rng.random() < 0.3:
@@ -395,6 +415,7 @@ def _equiv(ctx, case, nc, wd):
                     raise
                 outcome, detail = "error", "%s: %s" % (type(e).__name__, e)
         else:
+            quoted = {k for k, v in o.items() if isinstance(v, str) and ("\"" in v or "'" in v)}
             if name == "cli":
                 places = {k: "cli" for k in o}
             elif name == "cfg":
@@ -403,6 +424,8 @@ def _equiv(ctx, case, nc, wd):
                 places = {k: rng.choice(["cli", "cfg"]) for k in o}
             else:
                 places = {k: ("both" if k in CONFLICT_VALUES else rng.choice(["cli", "both"])) for k in o}
+            for k in quoted:
+                places[k] = "cli"  # quoting inside config-file values belongs to the third-party parser (see ASSUMPTIONS)
             places_desc[name] = places
             items = list(o.items())
             rng.shuffle(items)
